@@ -218,3 +218,7 @@ def units(tier):
         for i in range(1 if q else 4):
             us.append({'name': 'gen-%s-%d' % (which, i), 'fn': 'unit_generated', 'kwargs': {'which': which, 'n': n if q else n * 30}})
     return us
+
+
+# dimensions added after the fourth and fifth round of seeded changes (DESIGN.md 8.3, 8.4); part of the rule reported in the evidence
+RULE += ' Added with the fourth and fifth round of seeded changes: HammingWeight groups of 16..300 words of mostly-ones values (group weights of 256 and more).'
